@@ -530,3 +530,100 @@ Proof.
     + cbn. repeat split. intros p0 E. discriminate.
     + cbn [mhandles]. rewrite mhandles_upd. apply handles_alloc; [exact Hs|]. unfold hrel2. cbn. rewrite (proj1 H). repeat split.
 Qed.
+
+(* ---------- OpenFile ---------- *)
+Lemma land_mask_zero flag M bit : Z.land flag (Z.lnot M) = 0 -> Z.land bit M = 0 -> Z.land flag bit = 0.
+Proof.
+  intros H1 H2. rewrite <- (Z.land_m1_r bit), <- (Z.lor_lnot_diag M), Z.land_lor_distr_r, H2, Z.lor_0_l.
+  rewrite (Z.land_comm bit), Z.land_assoc, H1. reflexivity.
+Qed.
+
+Lemma flag_ok_facts flag : flag_ok flag = true ->
+  flag_has flag o_append = false /\
+  (flag_has flag o_trunc && flag_has flag (Z.lor o_rdwr o_wronly) && negb (Z.land flag memfs_access_mask =? 0)
+     = fl flag o_trunc && negb (Z.land flag memfs_access_mask =? 0)) /\
+  (flag_has flag o_trunc && flag_has flag (Z.lor o_rdwr o_wronly) && (Z.land flag memfs_access_mask =? 0) = false).
+Proof.
+  unfold flag_ok. intros H. apply andb_true_iff in H as [H _]. apply andb_true_iff in H as [H _]. apply Z.eqb_eq in H.
+  split; [|split].
+  - unfold flag_has. rewrite (land_mask_zero flag flag_mask o_append H); reflexivity.
+  - change (Z.lor o_rdwr o_wronly) with memfs_access_mask. unfold flag_has at 2.
+    destruct (Z.land flag memfs_access_mask =? 0) eqn:E; [now rewrite !andb_false_r|]. apply Z.eqb_neq in E.
+    assert (0 <= Z.land flag memfs_access_mask) by (apply Z.land_nonneg; right; discriminate).
+    assert (E2 : 0 <? Z.land flag memfs_access_mask = true) by (apply Z.ltb_lt; lia). rewrite E2, andb_true_r. reflexivity.
+  - change (Z.lor o_rdwr o_wronly) with memfs_access_mask. unfold flag_has at 2.
+    destruct (Z.land flag memfs_access_mask =? 0) eqn:E; [|apply andb_false_r]. apply Z.eqb_eq in E. rewrite E. cbn. now rewrite andb_false_r.
+Qed.
+
+Lemma sim_openfile s t p flag perm : Rsim s t -> wf_op s (OpenFile p flag perm) = true -> sim_raw s t (OpenFile p flag perm).
+Proof.
+  intros R Hwf. pose proof R as [W T N H Hs]. unfold sim_raw.
+  pose proof (WF_openfile s p flag perm W Hwf) as W'. cbn [m_step_raw p_step] in *.
+  cbn [wf_op] in Hwf. apply andb_true_iff in Hwf as [Hn Hwf]. apply andb_true_iff in Hn as [Hn Hfl].
+  destruct (flag_ok_facts flag Hfl) as (Happ & Htr & Hdead).
+  set (k := normalize_path p) in *. assert (Hc : canon k) by now apply canon_normalize.
+  unfold m_openfile in *. fold k in W' |- *.
+  change (Z.land flag 3 =? 0) with (Z.land flag memfs_access_mask =? 0).
+  set (ro := Z.land flag memfs_access_mask =? 0) in *.
+  change (fl flag) with (flag_has flag) in *.
+  destruct (lookup s k) as [f|] eqn:Hl.
+  - destruct (rel_node s t k f R Hl) as (n & x & Hgn & Hp & _ & Hx & Hi). rewrite Hp, Hx.
+    rewrite (andb_comm (flag_has flag o_create)).
+    destruct (flag_has flag o_excl && flag_has flag o_create) eqn:Eex; [split; [exact R | reflexivity]|].
+    cbv zeta in *. rewrite Happ, Htr, Hdead in *. unfold kind_at in Hwf. rewrite Hl, Hgn in Hwf.
+    destruct x as [pm|d pm]; cbn in Hi.
+    + destruct Hi as [Hd _]. rewrite Hd in Hwf. rewrite Hwf.
+      apply andb_true_iff in Hwf as [Hro _]. rewrite Hro in *. rewrite andb_false_r in *.
+      unfold popen, alloc_handle in *. cbn [fst snd mproj] in *. split; [|now rewrite (handles_len s t R)].
+      refine (Rsim_alloc_handle s t (mkH f 0 0 false true) (mkPH f 0 0 false true) R _). repeat split.
+    + destruct (flag_has flag o_trunc && negb ro) eqn:Et.
+      * unfold popen, alloc_handle in *. cbn [fst snd mproj phandles set_inode] in *.
+        split; [|now rewrite mhandles_upd, (handles_len s t R)].
+        refine (Rsim_alloc_handle _ (set_inode t f (IFile [] pm)) (mkH f 0 0 false ro) (mkPH f 0 0 false ro) _ _); [|repeat split].
+        apply Rsim_set; [exact R | apply (keeps_comp (with_mtime _) (with_data _)); [apply keeps_mtime | apply keeps_data] |].
+        intros n0 Hn0. rewrite Hgn in Hn0. inversion Hn0; subst n0. cbn. destruct Hi as (Hd & _ & Hpm). auto.
+      * unfold popen, alloc_handle in *. cbn [fst snd mproj] in *. split; [|now rewrite (handles_len s t R)].
+        refine (Rsim_alloc_handle s t (mkH f 0 0 false ro) (mkPH f 0 0 false ro) R _). repeat split.
+  - destruct (rel_none s t k R Hl) as [Hp Hx]. rewrite Hp.
+    destruct (flag_has flag o_create) eqn:Hcr; [|split; [exact R | reflexivity]].
+    assert (Hk : kind_at s k = None) by (unfold kind_at; now rewrite Hl). rewrite Hk in Hwf.
+    rewrite <- (rel_is_dir s t _ R). change (pparent k) with (par k). rewrite Hwf.
+    rewrite m_create_node_eq in *.
+    destruct (reg_new_present s k (new_file k (mclock s)) 0 W Hc Hl) as (q & Hq & Ereg & _); auto.
+    rewrite Ereg in *. cbv zeta in *. rewrite Happ, Htr, Hdead in *.
+    assert (Hat0 : (if flag_has flag o_trunc && negb ro then 0 else 0) = 0) by (destruct (flag_has flag o_trunc && negb ro); reflexivity).
+    rewrite Hat0 in *.
+    set (item := length (mheap s)) in *. set (nf := new_file k (mclock s)) in *.
+    set (s1 := upd_node (put_new s k nf) q (set_kid k item)) in *.
+    set (G := fun n0 : node => with_mtime (mclock s1) (with_data [] n0)) in *.
+    set (s2 := if flag_has flag o_trunc && negb ro then upd_node s1 item G else s1) in *.
+    assert (Hl3 : lookup (fst (alloc_handle s2 (mkH item 0 0 false ro))) k = Some item).
+    { unfold alloc_handle, lookup. cbn [fst mdata]. fold (lookup s2 k). unfold s2, s1.
+      destruct (flag_has flag o_trunc && negb ro); rewrite ?lookup_upd, lookup_put_new, beqb_refl; reflexivity. }
+    destruct (alloc_handle s2 (mkH item 0 0 false ro)) as [s3 h] eqn:Eah. cbn [fst] in Hl3.
+    rewrite (set_file_mode_canon s3 k _ _ Hc Hl3) in *. cbn [fst snd mproj] in *.
+    unfold alloc_handle in Eah. inversion Eah; subst s3 h. clear Eah.
+    unfold popen. cbn [fst snd].
+    assert (Hh2 : mhandles s2 = mhandles s).
+    { unfold s2, s1. destruct (flag_has flag o_trunc && negb ro); rewrite ?mhandles_upd; reflexivity. }
+    split; [|rewrite Hh2; now rewrite (handles_len s t R)].
+    assert (Hq' : (q < item)%nat) by (eapply GWF_lt; eauto).
+    assert (Hold2 : forall r n2, (r < item)%nat -> get_node s2 r = Some n2 -> exists n, get_node s r = Some n /\ core n2 = core n).
+    { intros r n2 Hlt Hn2. apply (leaf_old_nodes s k nf q (set_kid k item) r n2); auto. fold s1.
+      unfold s2 in Hn2. destruct (flag_has flag o_trunc && negb ro); [|exact Hn2].
+      rewrite get_upd in Hn2. assert (E : Nat.eqb item r = false) by (apply Nat.eqb_neq; lia). now rewrite E in Hn2. }
+    assert (Hnew2 : exists n2, get_node s2 item = Some n2 /\ ndir n2 = false /\ ndata n2 = []).
+    { pose proof (leaf_new_node s k nf q (set_kid k item) Hq') as Hn1. fold item s1 in Hn1.
+      unfold s2. destruct (flag_has flag o_trunc && negb ro).
+      - rewrite get_upd, Nat.eqb_refl, Hn1. cbn. eexists; split; [reflexivity | split; reflexivity].
+      - exists nf. split; [exact Hn1 | split; reflexivity]. }
+    destruct Hnew2 as (n2 & Hn2 & Hd2 & Hdat2).
+    eapply (Rsim_leaf s t _ k nf (with_mode (Z.land perm chmod_bits) n2) (IFile [] (Some (Z.land perm chmod_bits)))); eauto.
+    + rewrite mdata_upd. cbn [mdata]. unfold s2, s1. destruct (flag_has flag o_trunc && negb ro); rewrite ?mdata_upd; reflexivity.
+    + rewrite mheap_upd_len. cbn [mheap]. unfold s2. destruct (flag_has flag o_trunc && negb ro); rewrite ?mheap_upd_len; apply leaf_len.
+    + intros r n3 Hlt Hn3. rewrite get_upd in Hn3. assert (E : Nat.eqb item r = false) by (apply Nat.eqb_neq; unfold item; lia).
+      rewrite E in Hn3. apply (Hold2 r n3 Hlt). exact Hn3.
+    + rewrite get_upd, Nat.eqb_refl. change (get_node (mkM (mdata s2) (mheap s2) _ (mclock s2)) item) with (get_node s2 item). now rewrite Hn2.
+    + cbn. repeat split; auto. intros p0 E. inversion E. apply perm_bits_plain.
+    + rewrite mhandles_upd. cbn [mhandles]. rewrite Hh2. apply handles_alloc; [exact Hs|]. unfold hrel2. cbn. unfold item. rewrite (proj1 H). repeat split.
+Qed.
